@@ -91,7 +91,7 @@ fn trailing_peer(a: &Multiaddr) -> Option<PeerId> {
 
 pub fn part_b(check: &Check, args: &Args) {
     let tiny = util::tiny(args);
-    let cases = if tiny { 2 } else { args.tier.pick(3_000u64, 60_000) };
+    let cases = if tiny { 2 } else { args.tier.pick(2_000u64, 60_000) };
     let only: Option<u64> = args.extra.get("case").and_then(|s| s.parse().ok());
     vmon::par_cases_timed(check, cases, args.threads, args.tier.pick(25.0, 300.0), |case_idx, rng: &mut Rng| {
         if only.is_some() && only != Some(case_idx) {
